@@ -259,6 +259,18 @@ def run():
                 chk.traces += 1
     chk.extra["big_polytomy_roundtrips"] = big_poly
     chk.extra["big_polytomy_skipped_as_too_slow"] = big_skipped
+    # generated trees and random binary resolutions of polytomies, as clade sets
+    ngen = 0
+    for n in range(2, 9 if QUICK else 12):
+        for gen_, ar in [("star", 0), ("comb", 0)] + [("balanced", k_) for k_ in (2, 3, 4, 5)]:
+            t = getattr(tskit.Tree, "generate_" + gen_)(n, **({"arity": ar} if gen_ == "balanced" else {}))
+            cases.append(dict(kind="gen", gen=gen_, n=n, arity=ar, clades=[sorted(c_) for c_ in clades_of(t)], orig=[]))
+            ngen += 1
+            if n >= 3:
+                sp = t.split_polytomies(random_seed=rng.randrange(1, 2 ** 31))
+                cases.append(dict(kind="gen", gen="split", n=n, arity=ar, clades=[sorted(c_) for c_ in clades_of(sp)], orig=[sorted(c_) for c_ in clades_of(t)]))
+                ngen += 1
+    chk.extra["generated_tree_cases"] = ngen
     corrupted = []
     d = copy.deepcopy(cases[3])
     d["rows"][1], d["rows"][2] = d["rows"][2], d["rows"][1]
@@ -282,16 +294,18 @@ def run():
     for c in cases:
         if c["kind"] == "table":
             chk.note_case(dict(table=c["n"]), c["n"] >= 3)
+        elif c["kind"] == "gen":
+            chk.note_case(dict(gen=[c["gen"], c["n"], c["arity"], c["clades"]]), c["n"] >= 3)
         else:
             chk.note_case(dict(p=c["parent"], s=c["sets"]), len(c["counts"]) >= 2)
         f = verdicts[c["id"]]
         if f:
             chk.violation("trace rejected by Trace_Ranks (%s): %s %s" % (c["kind"] + (" n=%d" % c["n"] if c["kind"] == "table" else ""), sorted(f),
                                                                           st["eval_errors"].get(c["id"], "")[-300:]),
-                          c if c["kind"] == "count" else dict(n=c["n"], oob=c["oob"], perturbed=c["perturbed"]))
+                          c if c["kind"] in ("count", "gen") else dict(n=c["n"], oob=c["oob"], perturbed=c["perturbed"]))
         else:
             chk.traces += 1
-    chk.extra.update(rank_tables=[dict(n=c["n"], topologies=len(c["rows"])) for c in cases[:ntab]], count_cases=len(cases) - ntab,
+    chk.extra.update(rank_tables=[dict(n=c["n"], topologies=len(c["rows"])) for c in cases[:ntab]], count_cases=sum(1 for c in cases if c["kind"] == "count"),
                      incremental_counter_cases=inc_checked, big_rank_roundtrips=big_ok)
     chk.exhaustive = True
     c = cases[ntab] if len(cases) > ntab else cases[2]
